@@ -84,6 +84,8 @@ def same_tuple(a, b):
 
 def call_dihedral(ru, args, M, bo=None, rules=None):
     try:
+        if M == 1 and bo is None and rules is None:
+            return ("value", ru.dihedral_params(*args))
         return ("value", ru.dihedral_params(*args, num_dihedrals_about_bond=M, bond_order=bo, bond_order_rules=rules))
     except Exception as e:
         if type(e).__name__ == "PostBroken":
@@ -124,7 +126,11 @@ def _d(x):
 
 
 def check_angle(ru, tab, args, bos, rules, ctx, st):
-    got = ru.angle_params(*args, bond_orders=list(bos), bond_order_rules=rules)
+    if tuple(bos) == (None, None) and rules is None:
+        got = ru.angle_params(*args)               # optional arguments left out: the defaults must behave like explicit Nones, call after call
+        st.count("angle_calls_with_default_arguments")
+    else:
+        got = ru.angle_params(*args, bond_orders=list(bos), bond_order_rules=rules)
     exp = uffref.angle(tab, *args, bos=bos, rules=rules)
     rev = ru.angle_params(*reversed(args), bond_orders=list(reversed(bos)), bond_order_rules=rules)
     st.count("angle_evaluations")
@@ -158,7 +164,7 @@ def run_case(case, ctx):
                 st.seen("bond_order_value", g)
             for bo in BOS:
                 for rules in (RULESETS if bo is None else [None]):
-                    got = ru.bond_params(a1, a2, bond_order=bo, bond_order_rules=rules)
+                    got = ru.bond_params(a1, a2) if (bo is None and rules is None) else ru.bond_params(a1, a2, bond_order=bo, bond_order_rules=rules)
                     exp = uffref.bond(tab, a1, a2, bo, rules)
                     rev = ru.bond_params(a2, a1, bond_order=bo, bond_order_rules=rules)
                     st.count("bond_evaluations")
